@@ -128,6 +128,12 @@ func workerMain(a []string) int {
 		fmt.Fprintln(os.Stderr, err)
 		return 2
 	}
+	if shard == 0 && startAfter < 0 {
+		for _, pc := range p.Pinned {
+			cur.WriteAt([]byte(fmt.Sprintf("%012d\n", pc.Idx)), 0)
+			RunCase(p, so, tier, pc.Seed, pc.Idx, false)
+		}
+	}
 	for idx := shard; idx < n; idx += nsh {
 		if idx <= startAfter {
 			continue
